@@ -413,6 +413,13 @@ def c09(tier):
         c = acc[X["idx"][h[0]]]
         rep.failure("c09.silent-spin:" + c["id"], "parse() spins without calling the lexer or an action on %s" % h[1],
                     replay_of(c, h[1]))
+    # classification needs the trace verdict of every failing run: trace the ones the sample left out
+    need = [truns[b["r"]] for b in X["bad"] if "c09c" in b["bad"] and truns[b["r"]]["full"] and id(truns[b["r"]]) not in X["tvrun"]]
+    if need:
+        tv2, rt2 = run_trace(sc, X["tcases"], need, tag="trace2")
+        for i, r in enumerate(need):
+            X["tvrun"][id(r)] = tv2.get(i, {})
+
     def livelock_sig(run):
         """budget exceeded: classify from the real trace tail"""
         ev = run["events"]
